@@ -7,6 +7,7 @@ Core Lean only.
 import Gribi.Drv.RibDrv
 import Gribi.Model.Server
 import Gribi.Drv.ChkDrv
+import Gribi.Drv.FluentDrv
 namespace Gribi.Drv
 open Gribi
 
@@ -40,6 +41,7 @@ structure SrvSt where
   tmpElec : Option U128 := none
   tmpMaster : Option Nat := none
   flushedNIs : Option (List NI) := none
+  fl : FlSt := {}
   deriving Inhabited
 
 def codeNum : Code → Nat
@@ -508,6 +510,9 @@ def srvLine (st : SrvSt) (ts : List Tok) : SrvSt :=
       let st := bump st
       (st.monfail "c10" "the server did not answer within the watchdog (hang)").diff "hang" "the implementation hung"
     else if c.startsWith "chk." then { st with rs := chkLine st.rs ts }
+    else if c.startsWith "fl." then
+      let (rs, fl) := fluentLine st.rs st.fl ts
+      { st with rs := rs, fl := fl }
     else
       -- RIB-level observation lines and everything else
       { st with rs := ribLine st.rs ts }
